@@ -158,6 +158,7 @@ func buildEventQuery(
 		if f.Tags != nil {
 			sub = sub.Distinct()
 
+			n := 0
 			for key, values := range f.Tags {
 				tagHashes := make([][]byte, len(values))
 				for i, value := range values {
@@ -165,7 +166,9 @@ func buildEventQuery(
 					tagHashes[i] = b[:]
 				}
 
-				etag := t.As("etag" + key)
+				// numbered: SQLite identifiers ignore case, so "etag"+key collides for #e and #E
+				etag := t.As(fmt.Sprintf("etag%d", n))
+				n++
 
 				sub = sub.
 					Join(etag, goqu.On(
